@@ -680,8 +680,46 @@ def compare_v8(decisions):
     return len(uniq), classes, unknown, nexc
 
 
-# the alphabet over which the grammar fragment of coq/Regex/Grammar.v is enumerated
-FRAGMENT_ALPHABET = list("a.|()?*+:^$=!<\\dbw/]")
+# the alphabets over which the grammar fragment of coq/Regex/Grammar.v is enumerated
+FRAGMENT_ALPHABET = list("a.|()?*+:^$=!<\\dbw/]{},12")
+# a smaller alphabet for longer exhaustive enumeration of the quantifier syntax
+BRACE_ALPHABET = list("a{},12?()|")
+
+FRAG_NUMS = ["0", "1", "2", "3", "9", "10", "00", "007", "15", "2147483646", "2147483647", "2147483648", "4294967295",
+             "4294967296", "9223372036854775806", "9223372036854775807"]
+FRAG_ATOMS = ["a", "b", ".", "\\d", "\\D", "\\w", "\\s", "\\n", "\\t", "\\.", "\\$", "\\/", "\\a", "\\-", "\\{", "\\}", "\\]",
+              "-", ",", "1", "/", ":", "=", "!", "<", "]", "}", "{", "^", "$", "\\b", "\\B"]
+FRAG_QUANTS = ["*", "+", "?", "*?", "+?", "??", "{1}", "{1,}", "{1,2}", "{2,1}", "{,1}", "{}", "{1", "{1,2", "{a}", "{1}?",
+               "{0}", "{1 }", "{ 1}", "{1,2}?", "{1}{2}", "{,}", "{1,,2}", "{12,3}", "{3,12}"]
+
+
+def _frag_quant(rng):
+    if rng.random() < 0.6:
+        return rng.choice(FRAG_QUANTS)
+    a, b = rng.choice(FRAG_NUMS), rng.choice(FRAG_NUMS)
+    return rng.choice(["{%s}", "{%s,}", "{%s,%s}", "{%s,%s}?", "{%s", "{%s,%s", "{%s,}?"]).replace("%s", a, 1).replace("%s", b, 1)
+
+
+def _frag_disj(rng, depth):
+    alts = []
+    for _ in range(rng.choice([1, 1, 1, 2, 3])):
+        out = []
+        for _ in range(rng.choice([0, 1, 1, 2, 2, 3, 4])):
+            r = rng.random()
+            if r < 0.55 or depth <= 0:
+                out.append(rng.choice(FRAG_ATOMS))
+            else:
+                opener = rng.choice(["(", "(", "(?:", "(?:", "(?=", "(?!", "(?<=", "(?<!"])
+                out.append(opener + _frag_disj(rng, depth - 1) + (")" if rng.random() < 0.95 else ""))
+            if rng.random() < 0.45:
+                out.append(_frag_quant(rng))
+        alts.append("".join(out))
+    return "|".join(alts)
+
+
+def gen_fragment_structured(rng, n):
+    """patterns built from the constructs of the grammar fragment (quantifier syntax emphasised, bounds up to 2^63-1)."""
+    return [_frag_disj(rng, rng.choice([0, 1, 2, 2, 3]))[:100] for _ in range(n)]
 
 
 def model_recognises(strings):
@@ -691,12 +729,14 @@ def model_recognises(strings):
     return [tuple(int(x) != 0 for x in ln.split()[:4]) for ln in out]
 
 
-def compare_grammar_v8(maxlen, alphabet=None, extra=()):
-    """Grammar.v (through its recogniser, proved sound and complete for `Pattern u`) vs V8 on every string over the
-    fragment alphabet up to maxlen (plus `extra` strings) that satisfies in_fragment in the respective mode.
-    Returns (n_compared, n_accepted, mismatches)."""
-    alphabet = alphabet or FRAGMENT_ALPHABET
-    strs = list(gen_exhaustive(maxlen, alphabet)) + list(extra)
+def compare_grammar_v8(strs):
+    """Grammar.v (through its recogniser, proved sound and complete for `Pattern u`) vs V8 on the given strings, each in
+    the modes in which it satisfies in_fragment.  Strings on which V8 is known to deviate from the specification
+    (quantifier bounds clamped to 2^31-1 before the comparison) are not compared.
+    Returns (n_compared, n_accepted, mismatches, stats)."""
+    strs = sorted(set(strs))
+    nexc = sum(1 for s in strs if _v8_clamped_bounds(s))
+    strs = [s for s in strs if not _v8_clamped_bounds(s)]
     rec = model_recognises(strs)
     cn = [(s, r[2]) for s, r in zip(strs, rec) if r[0]]
     cu = [(s, r[3]) for s, r in zip(strs, rec) if r[1]]
@@ -707,7 +747,23 @@ def compare_grammar_v8(maxlen, alphabet=None, extra=()):
         for (s, ok), t in zip(cases, res):
             if t is None or ok != (not t):
                 mism.append({"kind": "grammar", "pattern": s, "flags": mode, "recognises": ok, "v8_throws": t})
-    return len(cn) + len(cu), sum(1 for _, ok in cn if ok) + sum(1 for _, ok in cu if ok), mism
+    nb = sum(1 for s, _ in cn if "{" in s) + sum(1 for s, _ in cu if "{" in s)
+    stats = {"strings": len(strs), "in_fragment_n": len(cn), "in_fragment_u": len(cu), "accepted_n": sum(1 for _, ok in cn if ok),
+             "accepted_u": sum(1 for _, ok in cu if ok), "with_brace": nb, "v8_clamp_excluded": nexc,
+             "mode_dependent": sum(1 for s, r in zip(strs, rec) if r[0] and r[1] and r[2] != r[3])}
+    return len(cn) + len(cu), stats["accepted_n"] + stats["accepted_u"], mism, stats
+
+
+def grammar_strings(tier, rng):
+    thorough = tier == "thorough"
+    strs = list(gen_exhaustive(4, FRAGMENT_ALPHABET))
+    strs += list(gen_exhaustive(6 if thorough else 5, BRACE_ALPHABET))
+    strs += gen_sampled(rng, 400000 if thorough else 60000, 7, FRAGMENT_ALPHABET)
+    strs += gen_sampled(rng, 200000 if thorough else 30000, 10, BRACE_ALPHABET)
+    strs += gen_fragment_structured(rng, 300000 if thorough else 40000)
+    if thorough:
+        strs += list(gen_exhaustive(5, list("a.|()?*+:^$=!<\\dbw/]")))
+    return strs
 
 
 def compare_history(seqs):
@@ -810,8 +866,9 @@ def compare_all(tier="quick", seed=1):
         counts["debug_seq_items"] = n; mism += m
 
     # ---- (6) the specification side: V8
-    ng, ngok, gm = compare_grammar_v8(5 if thorough else 4, extra=gen_sampled(rng, 300000 if thorough else 60000, 7, FRAGMENT_ALPHABET))
-    counts["grammar_strings"] = ng; counts["grammar_accepted"] = ngok
+    ng, ngok, gm, gstats = compare_grammar_v8(grammar_strings(tier, rng))
+    counts["grammar_strings"] = ng; counts["grammar_accepted"] = ngok; counts["grammar_stats"] = gstats
+    log("[regex] grammar vs V8: %d comparisons, %d mismatches, %.1fs" % (ng, len(gm), time.time() - t0))
     nv, classes, unknown, nexc = compare_v8(flat)
     counts["v8_compared"] = nv
     counts["v8_oracle_exceptions"] = nexc
